@@ -75,18 +75,21 @@ func arBases() []base {
 	}
 }
 
-// debWideSet restricts the wide product on the 4 KiB .deb bases, whose sets also go through deb.Load (expensive on
-// the instrumented build): deb-stored takes every single corruption and name x name over all member pairs (both
-// orders of a table name and a reference name); deb-pre, which exists for its EMPTY first member, takes the name
-// singles and name x name pairs that involve that member. The small bases ar2/ar3 take the full product.
+// debWideSet bounds the wide product on the .deb bases, whose sets also go through deb.Load: deb-gz and deb-stored
+// take every single corruption and every pair that involves a name column (name x name in both orders, name x any
+// aligned size / timestamp / uid / gid / mode / magic); deb-pre (which exists for its EMPTY first member) every single
+// and name x name over all member pairs. The small bases ar2/ar3 take the full product.
 func debWideSet(pre bool, cs []corr) bool {
 	if len(cs) == 1 {
-		return !pre || cs[0].Col == "name"
+		return true
 	}
-	if len(cs) != 2 || cs[0].Col != "name" || cs[1].Col != "name" {
+	if len(cs) != 2 {
 		return false
 	}
-	return !pre || cs[0].M == 0 || cs[1].M == 0
+	if pre {
+		return cs[0].Col == "name" && cs[1].Col == "name"
+	}
+	return cs[0].Col == "name" || cs[1].Col == "name"
 }
 
 // debPre is deb-stored with an EMPTY member in front (an earlier member without data, e.g. for an empty name table).
@@ -193,6 +196,49 @@ func dedupExcept(raw []string, except string) []string {
 	return out
 }
 
+// ---- alphabet audit: literals a change introduced into the code under test (empty on the unchanged tree) ----
+
+// auditNums: new integers n (with n-1, n+1) and, read as a bit width, 2^n-1, 2^n, 2^n+1 - as decimal texts that
+// fit a column of the given width.
+func auditNums(width int) []string {
+	var out []string
+	add := func(v int64) {
+		if t := strconv.FormatInt(v, 10); len(t) <= width {
+			out = append(out, t)
+		}
+	}
+	for _, v := range gen.AuditInts(0, 1<<62, 12) {
+		add(v)
+	}
+	for _, n := range gen.AuditInts(2, 62, 9) {
+		add(1<<uint(n) - 1)
+		add(1 << uint(n))
+		add(1<<uint(n) + 1)
+	}
+	return dedupExcept(out, "\x01never")
+}
+
+// auditTexts: new string literals that fit the column, as they are.
+func auditTexts(width int) []string {
+	return gen.AuditStrings(func(t string) bool { return len(t) <= width }, 6)
+}
+
+// auditNames: new strings as member names, and as prefix / suffix of a name.
+func auditNames() []string {
+	var out []string
+	for _, t := range gen.AuditStrings(func(t string) bool { return len(t) <= 16 }, 8) {
+		out = append(out, t)
+		for _, v := range []string{t + "x", "x" + t, t + "/", t + ".tar"} {
+			if len(v) <= 16 {
+				out = append(out, v)
+			}
+		}
+	}
+	return dedupExcept(out, "\x01never")
+}
+
+func oneByte(t string) bool { return len(t) == 1 }
+
 // sizeTemplates lists the size-column texts as functions of the member's true size ("T", "T+1", "T-1" are
 // resolved per member). core = the left-aligned value classes; wide = every class in every alignment.
 func sizeTemplates(wide bool) []string {
@@ -206,13 +252,15 @@ func sizeTemplates(wide bool) []string {
 			out = append(out, v+"|"+a)
 		}
 	}
+	out = append(out, auditNums(10)...)
+	out = append(out, auditTexts(10)...)
 	return out
 }
 
 // renderSize resolves a template for a member of true size T; ok=false when the alignment does not apply.
 func renderSize(tmpl string, T int) (string, bool) {
 	v, a := tmpl, "L"
-	if i := strings.LastIndexByte(tmpl, '|'); i >= 0 {
+	if i := strings.LastIndexByte(tmpl, '|'); i >= 0 && len(tmpl)-i == 2 && strings.Contains("RCTZP", tmpl[i+1:]) {
 		v, a = tmpl[:i], tmpl[i+1:]
 	}
 	switch v {
@@ -247,7 +295,8 @@ func colValues(col string, trueSize int, wide bool) []string {
 		if !wide {
 			return nil
 		}
-		return dedupExcept(append([]string{"", "x", "77777777"}, alignedAll([]string{"-1", "644"}, 8)...), "100644")
+		raw = append([]string{"", "x", "77777777"}, alignedAll([]string{"-1", "644"}, 8)...)
+		return dedupExcept(append(append(raw, auditNums(8)...), auditTexts(8)...), "100644")
 	case "name":
 		raw = []string{"", "/", "0123456789abcdef", strings.Repeat("\x00", 16)}
 		if wide {
@@ -258,6 +307,7 @@ func colValues(col string, trueSize int, wide bool) []string {
 				"#1/0", "#1/3", "#1/20", "#1/99999999999", "#1/-1", "#1/x",
 				// NUL inside the column
 				"a\x00b", "\x00//", "/\x00", "//\x00")
+			raw = dedupExcept(append(raw, auditNames()...), "\x01never")
 		}
 		return raw
 	case "magic":
@@ -265,6 +315,7 @@ func colValues(col string, trueSize int, wide bool) []string {
 	}
 	if wide { // ts, uid, gid: the sign class in every alignment, plus an aligned unsigned value
 		raw = append(raw, alignedAll([]string{"-1", "1"}, colWidth[col])...)
+		raw = append(append(raw, auditNums(colWidth[col])...), auditTexts(colWidth[col])...)
 		raw = dedupExcept(raw, "\x01never")
 	}
 	return raw
@@ -390,6 +441,12 @@ func (x *runner) isHung(cs []corr) bool {
 // histogram. It returns false when the shard should stop (a hang was just observed, or too many goroutines are
 // already spinning).
 func (x *runner) one(scen string, st *mc.Stats, lim limiter, b []byte, via, desc string) bool {
+	return x.oneRep(scen, st, lim, b, via, desc, nil)
+}
+
+// oneRep is one for an input that may be described by a recipe (rep != nil: large input; it is journalled, keyed
+// and reported by its recipe instead of its bytes).
+func (x *runner) oneRep(scen string, st *mc.Stats, lim limiter, b []byte, via, desc string, rep *RepSpec) bool {
 	if via == "load" && atomic.LoadInt64(&hangs) >= maxHangs {
 		st.Class("load skipped: too many hung executions already")
 		return false
@@ -397,12 +454,22 @@ func (x *runner) one(scen string, st *mc.Stats, lim limiter, b []byte, via, desc
 	anomaly, _ := refWalk(b)
 	var clauses0 map[string]bool
 	for conv := 0; conv < 2; conv++ {
-		slot := journalBegin(st, b, conv, via)
+		var slot int
+		if rep != nil {
+			slot = journalBeginIn(st, In{Conv: conv, Via: via, Desc: desc, Rep: rep})
+		} else {
+			slot = journalBegin(st, b, conv, via)
+		}
 		fs, class := eval(b, conv, via)
 		journalEnd(slot)
 		st.Evals += 2 // every input is run twice (determinism clause); a hang is run once
 		st.Traces++
-		key := via + strconv.Itoa(conv) + string(b)
+		var key string
+		if rep != nil {
+			key = via + strconv.Itoa(conv) + desc
+		} else {
+			key = via + strconv.Itoa(conv) + string(b)
+		}
 		st.Distinct(key)
 		if anomaly != "" {
 			st.DistinctNontrivial(key)
@@ -415,7 +482,13 @@ func (x *runner) one(scen string, st *mc.Stats, lim limiter, b []byte, via, desc
 			if conv == 0 {
 				clauses0 = map[string]bool{}
 			}
-			for _, v := range violations(scen, b, conv, via, desc, fs) {
+			var vs []*mc.Violation
+			if rep != nil {
+				vs = violationsIn(scen, In{Conv: conv, Via: via, Desc: desc, Rep: rep}, b, fs)
+			} else {
+				vs = violations(scen, b, conv, via, desc, fs)
+			}
+			for _, v := range vs {
 				st.Class("violation: " + v.Clause)
 				if conv == 0 {
 					clauses0[v.Clause] = true
@@ -610,7 +683,7 @@ func Run(r *mc.Run) {
 	// all sets of <= 2 columns (so e.g. an earlier member named "//" x a later member named "/35", both orders,
 	// with empty and non-empty data), at the ar level and through deb.Load ----
 	kw := 2
-	for _, b := range []base{arB[0], arB[1], debB[0], debPre()} {
+	for _, b := range []base{arB[0], arB[1], debB[1], debB[0], debPre()} {
 		b := b
 		all := singlesOf(b.ms, true)
 		kb := kw
@@ -622,7 +695,7 @@ func Run(r *mc.Run) {
 			via = "ar + deb.Load"
 		}
 		r.Scenario("wide-columns-"+b.name, map[string]interface{}{"base": b.name, "members": len(b.ms), "columns": wideCols, "single_corruptions": len(all),
-			"max_columns_corrupted": kb, "via": via, "readerat_conventions": 2, "deb_bases_sets": "deb-stored: every single + name x name over all member pairs; deb-pre: name singles + name x name with the empty first member",
+			"max_columns_corrupted": kb, "via": via, "readerat_conventions": 2, "deb_bases_sets": "deb-gz, deb-stored: every single + every pair that involves a name column; deb-pre: every single + name x name",
 			"name_values": colValues("name", 0, true), "mode_values": colValues("mode", 0, true), "uid_values": colValues("uid", 0, true)},
 			len(all), func(shard int, st *mc.Stats) bool {
 				lim := limiter{}
@@ -675,7 +748,7 @@ func Run(r *mc.Run) {
 		})
 
 	// ---- short strings ----
-	strs := gen.AllStrings([]string{"!", "`", "\n", "0", " "}, 3)
+	strs := gen.AllStrings(append([]string{"!", "`", "\n", "0", " "}, gen.AuditChars(oneByte, 2)...), 3)
 	places := []string{"alone", "after magic", "before members", "after last member", "after member 0"}
 	r.Scenario("short-strings", map[string]interface{}{"alphabet": "! ` \\n 0 blank", "max_len": 3, "strings": len(strs), "placements": places, "bases": "ar2, deb-stored"},
 		len(strs), func(si int, st *mc.Stats) bool {
@@ -754,5 +827,109 @@ func Run(r *mc.Run) {
 			}
 			return true
 		})
+	// ---- large inputs: long runs of one byte and very many members (a reader that does work per byte or per
+	// member - recursion, allocation - shows only here). 4 shards: at most 4 of these are in memory / on the stack
+	// at once; a stack overflow or out-of-memory kills the child process and is reported by the supervisor. ----
+	li := largeInputs(r.Quick())
+	r.Scenario("large-inputs", map[string]interface{}{"inputs": len(li), "filler_bytes": fmt.Sprintf("%q", largeFillers()), "run_lengths": largeLens(r.Quick()),
+		"member_counts": largeCounts(), "placements": "after the archive | between the global magic and the members | between member 0 and 1 | as the data the last member's size column claims",
+		"bases": "ar2 (ar level), deb-stored (ar level + deb.Load)", "readerat_conventions": 2},
+		4, func(shard int, st *mc.Stats) bool {
+			lim := limiter{}
+			for i := shard; i < len(li); i += 4 {
+				in := In{Rep: &li[i].rep}
+				b, err := in.Bytes()
+				if err != nil {
+					r.HarnessError("large input %s: %v", li[i].desc, err)
+					return false
+				}
+				st.Transitions++
+				x.oneRep("large-inputs", st, lim, b, "ar", li[i].desc, &li[i].rep)
+				if li[i].deb && !x.oneRep("large-inputs", st, lim, b, "load", li[i].desc, &li[i].rep) {
+					return false
+				}
+				if r.Expired() {
+					return false
+				}
+			}
+			return true
+		})
 	r.Extra["load_executions_that_did_not_return"] = atomic.LoadInt64(&hangs)
+}
+
+// ---- large inputs ----
+
+type largeIn struct {
+	desc string
+	rep  RepSpec
+	deb  bool
+}
+
+func largeFillers() []byte {
+	f := []byte{'\n', '!', '`', '0', ' ', 0}
+	for _, c := range gen.AuditChars(oneByte, 2) {
+		f = append(f, c[0])
+	}
+	return f
+}
+
+func largeLens(quick bool) []int {
+	l := []int{64 << 10, 1 << 20, 8 << 20}
+	if !quick {
+		l = append(l, 32<<20)
+	}
+	for _, v := range gen.AuditInts(61, 32<<20, 6) { // run lengths around constants a change introduced
+		l = append(l, int(v))
+	}
+	return l
+}
+
+func largeCounts() []int {
+	c := []int{10000, 100000}
+	for _, v := range gen.AuditInts(5, 200000, 6) { // member counts around constants a change introduced
+		c = append(c, int(v))
+	}
+	return c
+}
+
+func largeInputs(quick bool) []largeIn {
+	hx := func(b []byte) string { return fmt.Sprintf("%x", b) }
+	var out []largeIn
+	for _, b := range []base{arBases()[0], debBase(false, false)} {
+		full := gen.ArmBuild(b.ms)
+		offs, _ := gen.ArmOffsets(b.ms)
+		last := len(b.ms) - 1
+		for _, f := range largeFillers() {
+			for _, n := range largeLens(quick) {
+				d := fmt.Sprintf("%s + %d x %q ", b.name, n, f)
+				out = append(out,
+					largeIn{d + "after the archive", RepSpec{Prefix: hx(full), Unit: hx([]byte{f}), Count: n}, b.deb},
+					largeIn{d + "between the global magic and the members", RepSpec{Prefix: hx(full[:8]), Unit: hx([]byte{f}), Count: n, Suffix: hx(full[8:])}, b.deb},
+					largeIn{d + "between member 0 and member 1", RepSpec{Prefix: hx(full[:offs[1]]), Unit: hx([]byte{f}), Count: n, Suffix: hx(full[offs[1]:])}, b.deb})
+				// the last member's size column claims the run as its data
+				m := b.ms[last]
+				m.SizeSet, m.SizeText = true, strconv.Itoa(n)
+				pad := []byte{}
+				if n%2 == 1 {
+					pad = []byte{'\n'}
+				}
+				out = append(out, largeIn{d + "as the data of the last member (size column = run length)",
+					RepSpec{Prefix: hx(append(append([]byte(nil), full[:offs[last]]...), gen.ArmHeader(m)...)), Unit: hx([]byte{f}), Count: n, Suffix: hx(pad)}, b.deb})
+			}
+		}
+		// very many small members
+		for _, n := range largeCounts() {
+			for _, data := range []string{"", "x", "xy"} {
+				u := gen.ArmBuild([]gen.ArmMember{mem("m", []byte(data))})[8:]
+				pre := full
+				if !b.deb {
+					pre = full[:8]
+				} else if data != "" {
+					continue
+				}
+				out = append(out, largeIn{fmt.Sprintf("%s + %d members of %d byte(s)", b.name, n, len(data)), RepSpec{Prefix: hx(pre), Unit: hx(u), Count: n}, b.deb})
+			}
+		}
+	}
+	return out
 }
